@@ -165,7 +165,9 @@ class Graph(Model):
 
 def tree_obj(I, cls):
     F = Forest(I)
-    t = Obj(cls)
+    t = Obj(cls) if cls is not None else Obj.__new__(Obj)
+    if cls is None:
+        t.cls, t.fields = None, {}
     t.fields.update({"_graph": Graph(F), "_node_indices": NodeIdx(F), "_node_indices_rev": NodeRev(F), "grid_size": ("grid",), "_log_prior": alg.sym("log_prior"),
                      "_last_node_added_to": None})
     return t, F
@@ -504,6 +506,16 @@ def h_update(I, fi, vis_init_fi, vis_finish_fi):
             "finishing a vertex (after all its descendants) updates exactly that vertex: children are recomputed before their parents", kind="post")
 
 
+def verify_roundtrip(ctx, repo, prop):
+    """the serialisation half (C15): to_dict / from_dict / copy"""
+    R = dsl.Registry
+    dsl.verify(ctx, repo, R(), prop + ".graph", TR + ".to_dict", h_to_dict, expect_covers=["to_dict"])
+    dsl.verify(ctx, repo, R(), prop + ".graph", TR + ".from_dict", h_from_dict, expect_covers=FROM_DICT_COVERS)
+    dsl.verify(ctx, repo, R(), prop + ".graph", TR + ".copy", h_copy, expect_covers=["copy"])
+    ctx.trust("rustworkx edge_list / extend_from_edge_list / remove_nodes_from / copy by their documented contracts; that the restored graph equals the source graph is "
+              "the library's round trip (bounded stand-in)")
+
+
 def verify_all(ctx, repo, prop):
     R = dsl.Registry
     dsl.verify(ctx, repo, R(), prop + ".graph", TR + "._update_node", h_update_node, expect_covers=["update_node"])
@@ -516,8 +528,13 @@ def verify_all(ctx, repo, prop):
     dsl.verify(ctx, repo, R(), prop + ".graph", [TR + ".remove_subtree", TR + ".get_parent"], h_remove_subtree, expect_covers=REMOVE_COVERS)
     dsl.verify(ctx, repo, R(), prop + ".graph", TR + ".add_subtree", h_add_subtree, expect_covers=["graft.under-root", "graft.under-clone"])
     dsl.verify(ctx, repo, R(), prop + ".graph", [TR + "._relabel_grafted_subtree_nodes", TR + "._add_node_to_indices"], h_relabel_grafted, expect_covers=RELABEL_COVERS)
+    dsl.verify(ctx, repo, R(), prop + ".graph", [VIS + ".__init__", VIS + ".discover_vertex"], h_discover_vertex, expect_covers=["relabeller.root", "relabeller.clone"])
+    dsl.verify(ctx, repo, R(), prop + ".graph", TR + ".relabel_nodes", h_relabel_nodes, expect_covers=["relabel_nodes"])
+    dsl.verify(ctx, repo, R(), prop + ".graph", TR + ".to_dict", h_to_dict, expect_covers=["to_dict"])
+    dsl.verify(ctx, repo, R(), prop + ".graph", TR + ".from_dict", h_from_dict, expect_covers=FROM_DICT_COVERS)
     ctx.trust("rustworkx PyDiGraph by its contract as used by Tree (forest: unique root path, successors / predecessors, distinct node indices, shallow copy(), dfs_search finish order)",
-              "Tree.get_subtree / add_subtree / remove_subtree / relabel_nodes / from_dict (compose, subgraph, remove_nodes_from, visitors): not under contract (bounded edit-grammar enumeration)")
+              "rustworkx compose / remove_node_retain_edges / remove_nodes_from / descendants / dfs_search (discover_vertex once per reachable vertex, parents first) by their documented contracts",
+              "Tree.get_subtree / from_dict / to_dict and the clade / Newick visitors: not under contract (bounded edit-grammar enumeration)")
 
 
 # ----------------------------------------------------------------------------------------------------------- remove_subtree
@@ -832,3 +849,335 @@ def h_relabel_grafted(I, fi, add_idx_fi):
 
 
 RELABEL_COVERS = ["relabel.dummy-skipped", "relabel.renamed", "relabel.kept"]
+
+
+# ----------------------------------------------------------------------------------------------------------- relabel_nodes
+
+
+VIS = "phyclone.tree.visitors.PreOrderNodeRelabeller"
+
+
+def h_discover_vertex(I, init_fi, disc_fi):
+    """PreOrderNodeRelabeller: constructed from (tree, data) it starts the counter at 0 with empty maps; discovering a clone with the
+    counter at c renames it c, advances the counter, carries its data list over under the new name and registers (c <-> v) in both new
+    maps; discovering the dummy root registers (root <-> v) and leaves the counter alone."""
+    P = I.P
+    t, F = tree_obj(I, None)
+    log = F.log
+    orig = KeyLog("orig_data", log)
+    t.fields["_data"] = orig
+    t.py_root = ROOT
+
+    class TreeView(Model):
+        py_classes = ("Tree",)
+
+        def a__data(self, I_):
+            return orig
+
+        def a__graph(self, I_):
+            return t.fields["_graph"]
+
+        def a_root_node_name(self, I_):
+            return ROOT
+
+    vis = Obj(init_fi.cls)
+    newdata = KeyLog("new_data", log)
+    I.call_function(init_fi, [vis, TreeView(), newdata], {}, force_inline=True)
+    f = vis.fields
+    P.check("relabeller.initial-state", f.get("data") is newdata and f.get("orig_data") is orig and f.get("node_indices") == {} and f.get("node_indices_rev") == {} and f.get("graph") is t.fields["_graph"]
+            and I.equal(f.get("curr_idx"), 0) is True and f.get("root_node_name") == ROOT, "a new relabeller counts from 0 with empty maps, on the tree's graph and data", kind="post")
+    c = alg.sym("counter", "Int")
+    P.assume(P.z(c) >= 0)
+    f["curr_idx"] = c
+    ni, nr = KeyLog("node_indices", log), KeyLog("node_indices_rev", log)
+    f["node_indices"], f["node_indices_rev"] = ni, nr
+    at_root = P.decide(2) == 1
+    v = F.ri if at_root else alg.sym("v", "Int")
+    if not at_root:
+        P.assume(P.z(v) != P.z(F.ri))
+    renamed = []
+
+    class RPay(Pay):
+        def setattr(self, I_, name, value):
+            if name != "node_id":
+                raise Unsupported("store to TreeNode.%s" % name)
+            renamed.append((self, value))
+            self.name = value
+
+    old_name = alg.raw_app("name_of", v, sort="Int")
+    F.pay[I.to_num(v).key()] = RPay(I.to_num(v), log, ROOT if at_root else old_name)
+    I.call_function(disc_fi, [vis, v, alg.sym("time", "Int")], {}, force_inline=True)
+    sets = [e for e in log if e[0] == "set"]
+    if at_root:
+        dsl.cover(I, "relabeller.root")
+        ok = not renamed and len(sets) == 2 and sets[0][1] == "node_indices" and sets[0][2] == ROOT and (I.to_num(sets[0][3]) - v).is_zero() \
+            and sets[1][1] == "node_indices_rev" and (sets[1][2] - v).is_zero() and sets[1][3] == ROOT and (I.to_num(f["curr_idx"]) - c).is_zero()
+        P.check("relabeller.root", ok, "the dummy root keeps its name, is registered in both maps, the counter is unchanged", kind="post")
+        return
+    dsl.cover(I, "relabeller.clone")
+    ok = len(renamed) == 1 and (I.to_num(renamed[0][1]) - c).is_zero() and (I.to_num(f["curr_idx"]) - c - 1).is_zero()
+    P.check("relabeller.clone-renamed-to-the-counter", ok, "a clone discovered with the counter at c is renamed c and the counter becomes c + 1 (names are 0, 1, 2, ... in discovery order)", kind="post")
+    ok2 = len(sets) == 3 and sets[0][1] == "new_data" and (sets[0][2] - c).is_zero() and sets[0][3] == ("value-of", "orig_data", old_name.key()) \
+        and sets[1][1] == "node_indices" and (sets[1][2] - c).is_zero() and (I.to_num(sets[1][3]) - v).is_zero() \
+        and sets[2][1] == "node_indices_rev" and (sets[2][2] - v).is_zero() and (I.to_num(sets[2][3]) - c).is_zero()
+    P.check("relabeller.clone-registered", ok2, "its data list is carried over from the old name to the new one, and (new name <-> index) enters both new maps", kind="post")
+
+
+def h_relabel_nodes(I, fi):
+    P = I.P
+    t, F = tree_obj(I, fi.cls)
+    log = F.log
+    outl = ("outlier-list",)
+
+    class OldData(Model):
+        def getitem(self, I_, k):
+            if I_.equal(k, -1) is not True:
+                raise Unsupported("relabel_nodes reads _data[%r]" % (k,))
+            return outl
+
+    old = OldData()
+    t.fields["_data"] = old
+    made, vis_made, searched = [], [], []
+    newdata = KeyLog("new_data", log)
+    I.registry.globals_override["defaultdict"] = lambda I_, f=None: (made.append(f), newdata)[1]
+    I.registry.globals_override["list"] = lambda I_, x=(): ("copy-of", x)
+
+    class Vis(Model):
+        def __init__(self, tree, data):
+            self.tree, self.data = tree, data
+
+        def a_node_indices(self, I_):
+            return ("visitor.node_indices", self)
+
+        def a_node_indices_rev(self, I_):
+            return ("visitor.node_indices_rev", self)
+
+    I.registry.class_models["PreOrderNodeRelabeller"] = lambda I_, tree, data, start_idx=0: (vis_made.append(Vis(tree, data)), vis_made[-1])[1]
+
+    class Rx(Model):
+        def m_dfs_search(self, I_, g, sources, vis):
+            searched.append((g, sources, vis, len(log)))
+
+    I.registry.globals_override["rx"] = Rx()
+    I.call_function(fi, [t], {}, force_inline=True)
+    dsl.cover(I, "relabel_nodes")
+    sets = [e for e in log if e[0] == "set"]
+    P.check("relabel_nodes.outliers-kept", len(sets) == 1 and sets[0][1] == "new_data" and I.equal(sets[0][2], -1) is True and sets[0][3] == ("copy-of", outl), "the new data dictionary starts with a copy of the outlier list", kind="post")
+    ok = len(vis_made) == 1 and vis_made[0].tree is t and vis_made[0].data is newdata and len(searched) == 1 and searched[0][0] is t.fields["_graph"] \
+        and isinstance(searched[0][1], list) and len(searched[0][1]) == 1 and (I.to_num(searched[0][1][0]) - F.ri).is_zero() and searched[0][2] is vis_made[0] and searched[0][3] == 1
+    P.check("relabel_nodes.pre-order-search-from-the-root", ok, "one depth-first search from the dummy root with a fresh relabeller over (tree, new data)", kind="post")
+    if ok:
+        v0 = vis_made[0]
+        P.check("relabel_nodes.state-replaced", t.fields["_data"] is newdata and t.fields["_node_indices"] == ("visitor.node_indices", v0) and t.fields["_node_indices_rev"] == ("visitor.node_indices_rev", v0),
+                "afterwards the tree's data dictionary and both index maps are the relabeller's", kind="post")
+
+
+# ----------------------------------------------------------------------------------------------------------- to_dict / from_dict
+
+
+class DictModel(Model):
+    """a dictionary with symbolic content: copy() is recorded, items() is a symbolic sequence of (key, list) pairs"""
+
+    def __init__(self, name, n=None):
+        self.name, self.n = name, n
+
+    def m_copy(self, I):
+        return ("copy-of", self.name)
+
+    def m_items(self, I):
+        return ItemsModel(self)
+
+    def getitem(self, I, key):
+        return alg.raw_app("%s_at" % self.name, I.to_num(key), sort="Int")
+
+    def contains(self, I, key):
+        return SBool(z3.Function("in_%s" % self.name, z3.IntSort(), z3.BoolSort())(I.P.z(I.to_num(key))))
+
+
+class ListTok(Model):
+    def __init__(self, k):
+        self.k = k
+
+    def m_copy(self, I):
+        return ("copy-of-list", self.k.key())
+
+
+class ItemsModel(Model):
+    def __init__(self, d):
+        self.d = d
+
+    def dict_comprehension(self, I, node, gen, fr):
+        from pyvc.interp import Frame
+        k = alg.sym(I.P.fresh_name("key"), "Int")
+        sub = Frame(fr.module, fr.func, fr.cls)
+        sub.vars = dict(fr.vars)
+        I.assign_target(gen.target, (k, ListTok(k)), sub)
+        if gen.ifs:
+            raise Unsupported("filtered dict comprehension")
+        return ("mapped-dict", self.d.name, k, I.eval(node.key, sub), I.eval(node.value, sub))
+
+
+def _is_copied_data(x, name):
+    return isinstance(x, tuple) and len(x) == 5 and x[0] == "mapped-dict" and x[1] == name and isinstance(x[3], Num) and (x[3] - x[2]).is_zero() and x[4] == ("copy-of-list", x[2].key())
+
+
+def h_to_dict(I, fi):
+    P = I.P
+    t, F = tree_obj(I, fi.cls)
+    t.fields["_data"] = DictModel("_data")
+    t.fields["_node_indices"] = DictModel("_node_indices")
+    t.fields["_node_indices_rev"] = DictModel("_node_indices_rev")
+    t.fields["_last_node_added_to"] = alg.sym("last", "Int")
+    Graph.m_edge_list = lambda self, I_: ("edge-list-of", self)
+    d = I.call_function(fi, [t], {}, force_inline=True)
+    dsl.cover(I, "to_dict")
+    ok = isinstance(d, dict) and set(d) == {"graph", "node_idx", "node_idx_rev", "node_data", "grid_size", "node_last_added_to", "log_prior"}
+    P.check("to_dict.keys", ok, "the dictionary has the seven documented entries", kind="post")
+    if not ok:
+        return
+    P.check("to_dict.snapshot-shares-nothing", d["graph"] == ("edge-list-of", t.fields["_graph"]) and d["node_idx"] == ("copy-of", "_node_indices") and d["node_idx_rev"] == ("copy-of", "_node_indices_rev")
+            and _is_copied_data(d["node_data"], "_data"), "edge list, both index maps and every data list are copies: later edits of the tree cannot reach the snapshot", kind="post")
+    P.check("to_dict.scalars", d["grid_size"] is t.fields["grid_size"] and d["node_last_added_to"] is t.fields["_last_node_added_to"] and d["log_prior"] is t.fields["_log_prior"], "grid, prior and node_last_added_to are recorded", kind="post")
+
+
+def h_from_dict(I, fi):
+    P = I.P
+    F = Forest(I)
+    log = F.log
+    has_edges = P.decide(2) == 1
+    dsl.cover(I, "from_dict.with-clones" if has_edges else "from_dict.no-clone")
+    n_items = alg.sym("n_places", "Int")
+    P.assume(P.z(n_items) >= 0)
+
+    class NodeData(DictModel):
+        def m_items(self, I_):
+            return NDItems(self)
+
+    class NDItems(ItemsModel):
+        def for_loop(self, I_, node, fr):
+            # the second use: the loop that builds the TreeNodes - an arbitrary entry: a clone name, the outlier name or "root"
+            kind = I_.P.decide(3)
+            key = [alg.sym("clone_name", "Int"), Num.const(-1), ROOT][kind]
+            if kind == 0:
+                I_.P.assume(I_.P.z(key) >= 0)
+            st["kind"] = kind
+            st["key"] = key
+            from pyvc.interp import _Continue
+            I_.assign_target(node.target, (key, ("data-list-of", kind)), fr)
+            n0 = len(log)
+            try:
+                I_.exec_block(node.body, fr)
+            except _Continue:
+                st["skipped"] = True
+            st["body_log"] = log[n0:]
+
+    st = {}
+    edges = ("edge-list",) if has_edges else []
+    node_idx, node_rev, node_data = DictModel("node_idx"), DictModel("node_idx_rev"), NodeData("node_data")
+    G = alg.sym("G", "Int")
+    P.assume(P.z(G) >= 1)
+    grid = (alg.sym("D", "Int"), G)
+    prior = alg.sym("stored_prior")
+    stored_prior = P.decide(2) == 1
+    dsl.cover(I, "from_dict.stored-prior" if stored_prior else "from_dict.legacy-no-prior")
+    td = {"grid_size": grid, "log_prior": prior, "graph": edges, "node_idx": node_idx, "node_idx_rev": node_rev, "node_data": node_data, "node_last_added_to": alg.sym("last", "Int")}
+    if not stored_prior:
+        del td["log_prior"]
+    graphs, made = [], []
+
+    class NewGraph(Graph):
+        def m_extend_from_edge_list(self, I_, e):
+            log.append(("extend-from-edge-list", e))
+
+        def m_remove_nodes_from(self, I_, xs):
+            log.append(("remove-nodes", xs))
+
+        def m_node_indices(self, I_):
+            return HoleScan()
+
+    class HoleScan(Model):
+        def comprehension(self, I_, node, gen, fr):
+            # [idx for idx in node_indices() if idx not in node_idx_rev]: recorded with its filter
+            import ast as _ast
+            return HoleList(_ast.unparse(node.elt), [_ast.unparse(c) for c in gen.ifs])
+
+    class HoleList(Model):
+        def __init__(self, elt, ifs):
+            self.elt, self.ifs = elt, ifs
+
+        def m___len__(self, I_):
+            v = alg.sym("n_holes", "Int")
+            I_.P.assume(I_.P.z(v) >= 0)
+            return v
+
+    class RxM(Model):
+        def m_PyDiGraph(self, I_):
+            g = NewGraph(F, "restored")
+            graphs.append(g)
+            return g
+
+    class TN(Pay):
+        def m_add_data_point_list(self, I_, data):
+            log.append(("node-add-list", self, data))
+
+    I.registry.globals_override["rx"] = RxM()
+    I.registry.class_models["TreeNode"] = lambda I_, grid_, prior_, name: (made.append((grid_, prior_, name)), TN(("restored", len(made)), log, name))[1]
+    newdata = []
+
+    class NewData(Model):
+        def __init__(self):
+            self.updates = []
+
+        def m_update(self, I_, x):
+            self.updates.append(x)
+
+    I.registry.globals_override["defaultdict"] = lambda I_, f=None: (newdata.append(NewData()), newdata[-1])[1]
+    ups = []
+    I.registry.call_contracts[TR + ".update"] = lambda I_, a, k, n: ups.append(len(log))
+    cls_obj = I.repo.lookup_class(TR) if hasattr(I.repo, "lookup_class") else fi.cls
+    new = I.call_function(fi, [cls_obj, td], {}, force_inline=True)
+    ok = isinstance(new, Obj) and len(graphs) == 1 and new.fields.get("_graph") is graphs[0]
+    P.check("from_dict.new-tree", ok, "a new Tree over a new graph", kind="post")
+    if not ok:
+        return
+    f = new.fields
+    P.check("from_dict.maps-and-data-copied", f.get("_node_indices") == ("copy-of", "node_idx") and f.get("_node_indices_rev") == ("copy-of", "node_idx_rev") and len(newdata) == 1 and f.get("_data") is newdata[0]
+            and len(newdata[0].updates) == 1 and _is_copied_data(newdata[0].updates[0], "node_data"), "index maps and every data list are copies of the dictionary's: the restored tree shares nothing with it", kind="post")
+    if stored_prior:
+        okp = f.get("_log_prior") is prior
+    else:
+        prior = f.get("_log_prior")
+        okp = isinstance(prior, Num) and (alg.is_identically_zero(prior + alg.slog(G)) or not P.feasible(P.z(prior) != P.z(-alg.slog(G))))
+    P.check("from_dict.scalars", f.get("grid_size") is grid and okp and f.get("_last_node_added_to") is td["node_last_added_to"], "grid, prior (stored, or -log G for dictionaries written before it was stored) and node_last_added_to are restored", kind="post")
+    adds = [e for e in log if e[0] == "add-node"]
+    P.check("from_dict.root-first", len(adds) == 1 and log[0][0] == "add-node" and made and made[0] == (grid, prior, ROOT), "the dummy root is the first node of the new graph (index 0, as in every Tree)", kind="post")
+    P.check("from_dict.update-last", len(ups) == 1 and ups[0] == len(log), "the recursion values are recomputed for the whole tree at the end", kind="post")
+    if not has_edges:
+        P.check("from_dict.no-clone-no-rebuild", len(log) == 1 and len(made) == 1, "without edges nothing else is built", kind="post")
+        return
+    P.check("from_dict.edges-restored", len(log) >= 2 and log[1] == ("extend-from-edge-list", edges), "the edge list is restored as a whole", kind="post")
+    body = st.get("body_log")
+    if body is None:
+        P.check("from_dict.one-pass-over-the-places", False, "one pass over the stored data lists", kind="post")
+        return
+    if st["kind"] == 0:
+        dsl.cover(I, "from_dict.clone-entry")
+        key = st["key"]
+        okb = not st.get("skipped") and len(made) == 2 and made[1][0] is grid and made[1][1] is prior and isinstance(made[1][2], Num) and (made[1][2] - key).is_zero() \
+            and len(body) == 2 and body[0][0] == "node-add-list" and body[0][2] == ("data-list-of", 0) and body[1][0] == "set-payload" and body[1][1] is graphs[0] \
+            and (body[1][2] - alg.raw_app("node_idx_at", key, sort="Int")).is_zero() and body[1][3] is body[0][1]
+        P.check("from_dict.clone-node-rebuilt", okb, "for every clone a TreeNode on the stored grid and prior is filled with the clone's stored data list and placed at the clone's stored index", kind="post")
+    else:
+        dsl.cover(I, "from_dict.outlier-or-root-entry")
+        P.check("from_dict.outliers-and-root-have-no-node", st.get("skipped") and not body and len(made) == 1, "the outlier list and a root entry build no TreeNode", kind="post")
+    holes = [e for e in log if e[0] == "remove-nodes"]
+    if holes:
+        dsl.cover(I, "from_dict.holes-removed")
+        h = holes[0][1]
+        P.check("from_dict.only-unregistered-indices-removed", len(holes) == 1 and isinstance(h, HoleList) and h.elt == "idx" and h.ifs == ["idx not in tree_dict['node_idx_rev']"],
+                "the indices removed are exactly those not registered in the stored reverse map (gaps left by earlier removals)", kind="post")
+    else:
+        dsl.cover(I, "from_dict.no-holes")
+
+
+FROM_DICT_COVERS = ["from_dict.stored-prior", "from_dict.legacy-no-prior", "from_dict.with-clones", "from_dict.no-clone", "from_dict.clone-entry", "from_dict.outlier-or-root-entry", "from_dict.holes-removed", "from_dict.no-holes"]
